@@ -338,6 +338,7 @@ func (p *ValueDecl) endInit(cb *CodeBuilder, arity int) *ValueDecl {
 	defer func() {
 		cb.stk.PopN(arity)
 		cb.endInitExpr(p.old)
+		cb.valDecl = p.oldv // also when the values are rejected: the enclosing declaration is current again
 		if p.at >= 0 {
 			commitAssignStmt(cb, p) // to support inline call, we must emitStmt at EndInit stage
 		}
